@@ -48,7 +48,7 @@ def evidence_table():
     return "\n".join(out)
 
 def seed_stats():
-    w = {1: [0, 0, 0], 2: [0, 0, 0], 3: [0, 0, 0]}
+    w = {1: [0, 0, 0], 2: [0, 0, 0], 3: [0, 0, 0], 4: [0, 0, 0]}
     for d in sorted(glob.glob(os.path.join(root, "seeded", "*"))):
         mp = os.path.join(d, "meta.json")
         if not os.path.exists(mp):
@@ -59,13 +59,16 @@ def seed_stats():
         off = 1 if pid == "C01" else 0
         wave = 1 if k <= 3 + off else (2 if k <= 6 + off else 3)
         c = m.get("confirmed_by_main_session", {})
+        mw = re.match(r"wave (\d)", str(c.get("check_result", "")))
+        if mw:
+            wave = int(mw.group(1))
         w[wave][0] += 1
-        if "first missed" in str(c.get("check_result", "")).lower():
+        if "first missed" in str(c.get("check_result", "")).lower() or "first not caught" in str(c.get("check_result", "")).lower():
             w[wave][1] += 1
         if not c.get("caught_by_registered_check"):
             w[wave][2] += 1
     parts = []
-    for i, name in ((1, "first"), (2, "second"), (3, "third (six properties only, last hours; misses were not all followed up)")):
+    for i, name in ((1, "first"), (2, "second"), (3, "third (six properties)"), (4, "fourth (eleven other properties, two changes each)")):
         parts.append("%s wave %d changes, %d caught by the check as it stood, %d caught after strengthening, %d not caught by the property's own check" % (
             name, w[i][0], w[i][0] - w[i][1] - w[i][2], w[i][1], w[i][2]))
     return "Counts (generated from `seeded/*/meta.json`): " + "; ".join(parts) + "."
